@@ -9,10 +9,12 @@ LEVEL = "other"
 
 
 class InitDomain:
-    """which fields of the freshly allocated instance have been assigned"""
+    """which fields of the freshly allocated instance have been assigned (a must-set); helpers that receive the instance are
+    summarised: fields assigned on every return, and fields assigned on every return of 0 (added where the caller's branch
+    establishes that the helper returned 0)"""
 
-    def __init__(self, inst):
-        self.inst = inst
+    def __init__(self, inst, prog=None, depth=0):
+        self.inst, self.prog, self.depth = inst, prog, depth
         self.rets = []
 
     def copy(self, s): return s
@@ -25,15 +27,55 @@ class InitDomain:
             s = self.eval(c, s)
         return s
 
+    def _summary(self, call):
+        """(fields assigned on all returns, fields assigned on all returns of 0) of a helper given the instance"""
+        if self.prog is None or self.depth > 3:
+            return frozenset(), frozenset()
+        cn = callee_name(call)
+        lib = self.prog.lib_functions()
+        if cn not in lib:
+            return frozenset(), frozenset()
+        ps = self.prog.params(lib[cn])
+        pname = None
+        for p, a in zip(ps, call_args(call)):
+            if ref_name(strip(a, casts=True)) == self.inst and strip(a, casts=True).get("kind") == "DeclRefExpr":
+                pname = p["name"]
+        if pname is None:
+            return frozenset(), frozenset()
+        sub = InitDomain(pname, self.prog, self.depth + 1)
+        end = Flow(sub).function(self.prog, lib[cn], frozenset())
+        alls, succ = None, None
+        rets = list(sub.rets) + ([(None, end)] if end is not None else [])
+        for n, st in rets:
+            alls = st if alls is None else alls & st
+            v = ConstEval(self.prog).try_eval(strip(kids(n)[0], casts=True)) if (n is not None and kids(n)) else None
+            if n is None or v == 0 or v is None:
+                succ = st if succ is None else succ & st
+        return alls or frozenset(), succ or frozenset()
+
     def eval(self, e, s):
         for m in walk(strip(e) or {}):
             if m.get("kind") in ("BinaryOperator",) and m.get("opcode") == "=":
                 l = strip(kids(m)[0])
                 if l.get("kind") == "MemberExpr" and ref_name(kids(l)[0]) == self.inst:
                     s = s | {l.get("name")}
+            if m.get("kind") == "CallExpr":
+                s = s | self._summary(m)[0]
         return s
 
-    def assume(self, e, t, s): return s
+    def assume(self, e, t, s):
+        e0 = strip(e)
+        call, zero = None, None
+        if e0.get("kind") == "CallExpr":
+            call, zero = e0, (not t)
+        elif e0.get("kind") == "BinaryOperator" and e0.get("opcode") in ("==", "!="):
+            l, r = strip(kids(e0)[0], casts=True), strip(kids(e0)[1], casts=True)
+            for a, b in ((l, r), (r, l)):
+                if a.get("kind") == "CallExpr" and self.prog is not None and ConstEval(self.prog).try_eval(b) == 0:
+                    call, zero = a, ((e0["opcode"] == "==") == t)
+        if call is not None and zero:
+            s = s | self._summary(call)[1]
+        return s
 
     def ret(self, n, s):
         self.rets.append((n, s))
@@ -91,7 +133,7 @@ def run(chk, prog, tier):
     if inst is None:
         chk.broken("INIT", "INIT/create", loc_str(create), "asm_create_instance allocates the instance into a local", "no local of instance type")
     else:
-        dom = InitDomain(inst)
+        dom = InitDomain(inst, prog)
         Flow(dom).function(prog, create, frozenset())
         nsucc = 0
         for n, s in dom.rets:
